@@ -22,18 +22,37 @@ import (
 	"math"
 	"net/http"
 	"net/url"
+	"reflect"
 	"sort"
 	"strconv"
 	"strings"
 	"sync"
 	"sync/atomic"
 	"testing"
+	"unsafe"
 
 	"github.com/fabiolb/fabio/internal/verifx"
 )
 
 // c04Ring is the single place that reads the weighted ring of a route.
 func c04Ring(r *Route) []*Target { return r.wTargets }
+
+// c04Cursor finds the round-robin counter of a route by reflection (a uint64 field named
+// "total").  It is used by an OPTIONAL probe only: when the field does not exist (any more) the
+// probe is skipped and counted as skipped, the rest of the check is unaffected.
+func c04Cursor(r *Route) *uint64 {
+	f := reflect.ValueOf(r).Elem().FieldByName("total")
+	if !f.IsValid() || f.Kind() != reflect.Uint64 || !f.CanAddr() {
+		return nil
+	}
+	return (*uint64)(unsafe.Pointer(f.UnsafeAddr()))
+}
+
+// counts a long-lived route reaches: just below 2^32 (5 days at 10k requests/s), 2^32+2^31, 2^63
+var c04Counts = []struct {
+	name string
+	at   uint64
+}{{"2^32", 1 << 32}, {"2^32+2^31", 1<<32 + 1<<31}, {"2^63", 1 << 63}}
 
 type c04Target struct {
 	Svc  string   `json:"svc"`
@@ -134,6 +153,7 @@ var c04RndMu sync.Mutex
 
 type c04Stats struct {
 	cases, weights, cycles, picks, rndPicks, nontrivial, viaCmd, resets, multi, multiPicks int64
+	bigProbes, bigSkipped                                                                 int64
 }
 
 type c04Failer func(clause, picker, format string, a ...any)
@@ -324,6 +344,49 @@ func c04Run(c *c04Case, doPicks bool, cache *GlobCache, st *c04Stats) {
 	if !c04Cycles(rt, seq, c.Warmup/3+1, c, "rr-count", fail) {
 		return
 	}
+	// ---- optional probe: a route that has already served very many lookups.  The cursor is a
+	// natural number (WeightsRR!PeriodicAtAnyCount): after ANY number of lookups the next full
+	// cycles are exact.  The counter is positioned a little below the count so that the count
+	// is crossed inside the first cycle; three ring lengths are observed.
+	if n > 1 && c.Warmup%3 == 0 {
+		if cur := c04Cursor(rt.r); cur == nil {
+			atomic.AddInt64(&st.bigSkipped, 1)
+		} else {
+			at := c04Counts[(c.Warmup/3)%len(c04Counts)]
+			atomic.StoreUint64(cur, at.at-uint64(1+c.Warmup%u))
+			big := make([]int, 0, 3*u)
+			var pp any
+			var pstack string
+			bad := ""
+			pp, pstack = verifx.Safely(func() {
+				for j := 0; j < 3*u; j++ {
+					t := rt.pick(rr, false)
+					i, ok := rt.idx[t]
+					if !ok {
+						bad = fmt.Sprintf("round-robin lookup %d after %s lookups returned %v, not a target of the route", j, at.name, t)
+						return
+					}
+					big = append(big, i)
+				}
+			})
+			atomic.AddInt64(&st.bigProbes, 1)
+			atomic.AddInt64(&st.picks, int64(len(big)))
+			switch {
+			case pp != nil:
+				fail("panic", "rr", "panic in round-robin lookup around %s lookups: %v\n%s", at.name, pp, pstack)
+				return
+			case bad != "":
+				fail("rr-nonmember", "rr", "%s", bad)
+				return
+			}
+			failBig := func(clause, pk, format string, a ...any) {
+				fail("rr-large-count", pk, "around the %s-th lookup of the route (counter positioned %d lookups before it): %s", at.name, 1+c.Warmup%u, fmt.Sprintf(format, a...))
+			}
+			if !c04Cycles(rt, big, c.Warmup/5+1, c, "rr-large-count", failBig) {
+				return
+			}
+		}
+	}
 	// ---- random picker with a counter as random source: every ring index drawn once
 	c04RndMu.Lock()
 	saved := randIntn
@@ -443,7 +506,8 @@ func TestVerifC04(t *testing.T) {
 		t.Fatal(err)
 	}
 	verifx.Summary(map[string]any{"cases": n, "weights": st.weights, "cycles": st.cycles, "picks": st.picks, "rnd_picks": st.rndPicks,
-		"distinct_nontrivial": st.nontrivial, "via_weight_cmd": st.viaCmd, "reset_last": st.resets, "samples": samples})
+		"distinct_nontrivial": st.nontrivial, "via_weight_cmd": st.viaCmd, "reset_last": st.resets, "samples": samples,
+		"large_count_probes": st.bigProbes, "large_count_skipped": st.bigSkipped})
 }
 
 // ---- several routes, interleaved lookups
